@@ -43,11 +43,14 @@ Definition assign_var (blocks : list (list bin)) (c p : Z) : Z :=
   lo + searchsorted_right (slice (start_abspos blocks) lo hi) (chrom_abspos blocks c + p) - 1.
 (** binsize given:  chrom_binoffset[cid] + anchor // binsize *)
 Definition assign_fixed (blocks : list (list bin)) (b c p : Z) : Z := chrom_binoffset blocks c + p / b.
-Definition assign (blocks : list (list bin)) (c p : Z) : Z :=
-  match get_binsize (table blocks) with
+(** gs.binsize = get_binsize(bins) is computed once, when the GenomeSegmentation is built *)
+Definition gs_binsize (blocks : list (list bin)) : option Z := get_binsize (table blocks).
+Definition assign_bs (bs : option Z) (blocks : list (list bin)) (c p : Z) : Z :=
+  match bs with
   | Some b => assign_fixed blocks b c p
   | None => assign_var blocks c p
   end.
+Definition assign (blocks : list (list bin)) (c p : Z) : Z := assign_bs (gs_binsize blocks) blocks c p.
 
 (* ----------------------------------------------------------- _sanitize_records, phase by phase *)
 (** working row: the (possibly swapped) record with its chrom-id and anchor arrays *)
@@ -70,12 +73,13 @@ Definition is_tril (w : wrow) : bool :=
   (wc2 w <? wc1 w) || ((wc1 w =? wc2 w) && (wa2 w <? wa1 w)).
 Definition swap_w (w : wrow) : wrow :=
   ((snd (fst w), fst (fst w)), (wc2 w, wa2 w, wc1 w, wa1 w)).
-Definition assign_w (blocks : list (list bin)) (w : wrow) : outrec :=
-  (assign blocks (wc1 w) (wa1 w), assign blocks (wc2 w) (wa2 w), fst (fst w), snd (fst w)).
+Definition assign_w (bs : option Z) (blocks : list (list bin)) (w : wrow) : outrec :=
+  (assign_bs bs blocks (wc1 w) (wa1 w), assign_bs bs blocks (wc2 w) (wa2 w), fst (fst w), snd (fst w)).
 
 (** None = BadInputError for the whole chunk *)
 Definition sanitize_records (blocks : list (list bin)) (one_based validate : bool) (ta : tril_action)
            (chunk : list record) : option (list outrec) :=
+  let bs := gs_binsize blocks in
   (* drop records from non-requested chromosomes *)
   let rows := map (to_wrow one_based) (filter known chunk) in
   (* check bounds *)
@@ -92,12 +96,12 @@ Definition sanitize_records (blocks : list (list bin)) (one_based validate : boo
       end in
     match rows' with
     | None => None
-    | Some rs => Some (map (assign_w blocks) rs)
+    | Some rs => Some (map (assign_w bs blocks) rs)
     end.
 
 (** the same function, record by record *)
 Inductive outcome := ODrop | OErr | OKeep (o : outrec).
-Definition sanitize1 (blocks : list (list bin)) (one_based validate : bool) (ta : tril_action)
+Definition sanitize1_bs (bs : option Z) (blocks : list (list bin)) (one_based validate : bool) (ta : tril_action)
            (r : record) : outcome :=
   if negb (known r) then ODrop
   else
@@ -105,12 +109,14 @@ Definition sanitize1 (blocks : list (list bin)) (one_based validate : bool) (ta 
     if validate && (is_neg w || is_excess blocks w) then OErr
     else if is_tril w then
       match ta with
-      | TrilNone => OKeep (assign_w blocks w)
-      | TrilReflect => OKeep (assign_w blocks (swap_w w))
+      | TrilNone => OKeep (assign_w bs blocks w)
+      | TrilReflect => OKeep (assign_w bs blocks (swap_w w))
       | TrilDrop => ODrop
       | TrilRaise => OErr
       end
-    else OKeep (assign_w blocks w).
+    else OKeep (assign_w bs blocks w).
+Definition sanitize1 (blocks : list (list bin)) (one_based validate : bool) (ta : tril_action)
+           (r : record) : outcome := sanitize1_bs (gs_binsize blocks) blocks one_based validate ta r.
 Definition is_err (o : outcome) : bool := match o with OErr => true | _ => false end.
 Definition kept (o : outcome) : list outrec := match o with OKeep x => [x] | _ => [] end.
 Definition collect (l : list outcome) : option (list outrec) :=
@@ -192,8 +198,9 @@ Definition load_bg2_chunk (blocks : list (list bin)) (one_based : bool) (ta : tr
   match sanitize_records blocks one_based true ta (map fst chunk) with
   | None => None
   | Some _ =>
+      let bs := gs_binsize blocks in
       let f := fun rv : record * Z =>
-        match sanitize1 blocks one_based true ta (fst rv) with
+        match sanitize1_bs bs blocks one_based true ta (fst rv) with
         | OKeep o => [(okey o, snd rv)]
         | _ => []
         end in
